@@ -857,6 +857,13 @@ fn main() {
         s13.extend(vec![Heartbeat(0), dl(0, 2, "AE"), dl(2, 0, "AER")]); // g2 g3 on nodes 0 and 2 only
         s13.extend(el5(3, 4, 1)); // node 3 ([f1]) asks 4 (empty) and 1 (e1..e3, last term 1)
         s13.extend(vec![Propose(3), Heartbeat(3), dl(3, 4, "AE"), dl(4, 3, "AER"), dl(3, 1, "AE"), dl(1, 3, "AER"), dl(3, 1, "AE"), dl(1, 3, "AER")]);
+        // (15) a candidate that campaigns again in the next term must not count the votes of its failed election
+        let s15 = vec![Elect(0), dl(0, 1, "RV"), dl(1, 0, "RVR"), Elect(0), Elect(3), Elect(3), dl(3, 1, "RV"), dl(1, 3, "RVR"), dl(3, 4, "RV"),
+                       dl(4, 3, "RVR"), dl(0, 2, "RV"), dl(2, 0, "RVR"), Heartbeat(3), dl(3, 0, "AE"), dl(0, 3, "AER"), Heartbeat(0), dl(0, 2, "AE")];
+        let dir15 = args.out.join("wal").join("corpus5c");
+        let (t, h, nt) = run_script(&s15, &k5, &mut rng, dir15.clone(), &mut dist, "corpus stale-votes-of-failed-election-5: ");
+        let _ = std::fs::remove_dir_all(&dir15);
+        w.push(&t, &h, nt);
         let dir = args.out.join("wal").join("corpus5b");
         let (t, h, nt) = run_script(&s13, &k5, &mut rng, dir.clone(), &mut dist, "corpus stale-term-ack-5: ");
         let _ = std::fs::remove_dir_all(&dir);
